@@ -113,6 +113,10 @@ def analyse(prop, spec, ops, model, impl, crashes):
             if int(a["allocs"]) != meta["allocs"]:
                 real.append(dict(meta=meta, kind="unexpected-allocation", op=line, impl=impl[i], expected=meta["allocs"]))
                 ok_here = False
+        if "bound" in spec["impl"] and a["head"] == "fault" and "tick limit exceeded" in a.get("raw", ""):
+            real.append(dict(meta=meta, kind="step-bound-exceeded", op=line, impl=impl[i], model=model[i],
+                             detail="the real code exceeded the executor's work limit of 64*(n+m)+2e6 steps"))
+            ok_here = False
         if "bound" in spec["impl"] and meta.get("bound") is not None and "steps" in a:
             if int(a["steps"]) > meta["bound"]:
                 real.append(dict(meta=meta, kind="step-bound-exceeded", op=line, impl=impl[i], bound=meta["bound"]))
